@@ -1742,6 +1742,34 @@ pub mod verif_hooks {
         service.on_connection_closed(peer, connection_id).is_some()
     }
 
+    /// A transport service that is not attached to any running task.
+    pub fn new_service(manager: &mut crate::transport::manager::TransportManager) -> TransportService {
+        TransportService::new(
+            PeerId::random(),
+            ProtocolName::from("/verif/1"),
+            Vec::new(),
+            Default::default(),
+            manager.transport_manager_handle(),
+            Duration::from_secs(5),
+            SubstreamKeepAlive::Yes,
+        )
+        .0
+    }
+
+    /// A connection handle and the command channel its connection task would serve.
+    pub fn new_connection(connection_id: ConnectionId) -> (ConnectionHandle, tokio::sync::mpsc::Receiver<crate::protocol::ProtocolCommand>) {
+        let (tx, rx) = tokio::sync::mpsc::channel(16);
+        (ConnectionHandle::new(connection_id, tx), rx)
+    }
+
+    /// The (substream id, connection id) of the next substream-open command queued on `rx`.
+    pub fn next_open_command(rx: &mut tokio::sync::mpsc::Receiver<crate::protocol::ProtocolCommand>) -> Option<(SubstreamId, ConnectionId)> {
+        match rx.try_recv() {
+            Ok(crate::protocol::ProtocolCommand::OpenSubstream { substream_id, connection_id, .. }) => Some((substream_id, connection_id)),
+            _ => None,
+        }
+    }
+
     /// (primary connection id, secondary connection id) the service tracks for `peer`.
     pub fn connections_of(service: &TransportService, peer: &PeerId) -> Option<(ConnectionId, Option<ConnectionId>)> {
         service.connections.get(peer).map(|context| {
